@@ -99,12 +99,14 @@ def register(prop):
                       "no crashes in C08L plans, so every listed peer is live"],
          extra={"grid_cells": 486})
 
-    prop("C18", [dict(scn="C18", quick=8000, thorough=600000, wall_quick=100, wall_thorough=1500)],
+    prop("C18", [dict(scn="C18", quick=8000, thorough=600000, wall_quick=100, wall_thorough=1500), dict(scn="C18C", quick=200, thorough=20000, wall_quick=60, wall_thorough=900)],
          "bench mode: receiver with a generated allowlist (IPv4 nets, IPv4+IPv6, /32 hosts, /16+/12, empty non-nil, nil); member x prior absent/alive/suspect/dead/left at an allowed "
          "address; 1-10 claims whose advertised address is inside / outside / IPv4-mapped IPv6 of inside or outside / 0-, 3-, 5-byte / IPv6 inside or outside, carried by UDP alive "
          "from an allowed or disallowed source, inside a compound, compressed, piggybacked on a ping, as push/pull entries over a real stream (join and anti-entropy) and direct merge, "
          "incl. address-change and reclaim attempts; after every step no Members() entry, event argument or stored record address lies outside every allowed net (independent "
-         "containment routine); alive from a disallowed source leaves the full digest unchanged; non-trivial = allowlist configured and >=1 claim had to be rejected; distinct = distinct (list, prior, script)",
+         "containment routine); alive from a disallowed source leaves the full digest unchanged; non-trivial = allowlist configured and >=1 claim had to be rejected; distinct = distinct (list, prior, script). "
+         "C18C (cluster): 3-7 real nodes in two subnets, the 10.0.0.0/24 side enforces an allowlist, joins in every direction, gossip and push/pull flowing: at every scheduler step no "
+         "allowlisting node stores a record or has delivered an event with an outside address",
          assumptions=["an empty non-nil CIDRsAllowed is treated as 'no allowlist' (that is what the code and the pinned tests do; the doc comment disagrees) - generated, must not panic, nothing else asserted"])
 
     prop("C14", [dict(scn="C14", quick=1500, thorough=100000, wall_quick=120, wall_thorough=2400)],
